@@ -271,9 +271,9 @@ var commonTrusted = []string{
 func init() {
 	reg("C02", func(ctx *Ctx, emit func(Case)) { genAuthStream(ctx, "enc", emit) },
 		[]string{"authenticity is proved as a reduction: accepted packets bind (MAC key, header hash, packet number, final flag, ciphertext); infeasibility of MAC forgery / hash collision is cryptography, not assumed as an axiom"}, commonTrusted)
-	reg("C04", func(ctx *Ctx, emit func(Case)) { genAuthStream(ctx, "sc", emit) },
+	reg("C04", func(ctx *Ctx, emit func(Case)) { genAuthStream(ctx, "sc", emit); genOwnSignerSplices(ctx, "sc", emit) },
 		[]string{"as C02, with Ed25519 signatures: an accepted chunk of a named sender carries a verified signature over domain‖header hash‖nonce(final, number)‖final‖SHA-512(chunk)"}, commonTrusted)
-	reg("C06", func(ctx *Ctx, emit func(Case)) { genAuthStream(ctx, "sig", emit) },
+	reg("C06", func(ctx *Ctx, emit func(Case)) { genAuthStream(ctx, "sig", emit); genOwnSignerSplices(ctx, "sig", emit) },
 		[]string{"as C02 for attached signatures"}, commonTrusted)
 	reg("C07", func(ctx *Ctx, emit func(Case)) { genDetached(ctx, emit) },
 		[]string{"SHA-512 streaming = one-shot (hash.Hash contract)"}, commonTrusted)
@@ -290,7 +290,7 @@ func init() {
 
 func init() {
 	reg("C12", func(ctx *Ctx, emit func(Case)) { genCalls(ctx, emit) }, []string{"key objects are observed at the interfaces the application supplies (harness key objects log every call)"}, commonTrusted)
-	reg("C15", func(ctx *Ctx, emit func(Case)) { genHostile(ctx, emit); genHostileSender(ctx, emit) }, []string{"version validators admit only majors 1 and 2 (documented contract; necessity proved)", "memory allocation driven by length fields is go-codec's and the runtime's concern: measured as supporting evidence only"}, commonTrusted)
+	reg("C15", func(ctx *Ctx, emit func(Case)) { genHostile(ctx, emit); genHostileSender(ctx, emit); genMemory(ctx, emit) }, []string{"version validators admit only majors 1 and 2 (documented contract; necessity proved)", "the memory clause is decided by observation only (allocation of a child process on inputs with lying length prefixes, budget 48 MiB + 64 bytes per input byte): go-codec's allocation policy is not modelled"}, commonTrusted)
 	reg("C17", func(ctx *Ctx, emit func(Case)) { genGating(ctx, emit); genSpecGate(ctx, emit) }, nil, commonTrusted)
 	reg("C18", func(ctx *Ctx, emit func(Case)) { genFresh(ctx, emit) }, []string{"the randomness source itself is trusted (uniform, non-repeating)"}, commonTrusted)
 }
